@@ -21,7 +21,8 @@ def run_case(seed, index, props):
     fields = rng.choice([None, ['id', 'name', 'parent', 'successors', 'predecessors', 'nosuch', 'custom', 'estimate', 'spent', 'start', 'Other'], ['name'], ['predecessors', 'name', 'id'],
                          ['id', 'name', rng.choice(['children', 'all_children', 'wbs', 'clone', 'all_parents', 'print', 'to_dict'])]])
     ch = rng.random() < .7
-    theme = rng.choice([None, {'header_color': '92m', 'level_colors': ['94m']}, {'level_colors': []}])
+    theme = rng.choice([None, {'header_color': '92m', 'level_colors': ['94m']}, {'level_colors': []}, {'header_color': None, 'level_colors': [None, None, None, None, None, None]},
+                        {'header_color': '92m', 'level_colors': [None, '94m']}])          # a colour may be None: that row is printed without colour codes
     target = rng.choice(['roots', 'task', 'list'])
     desc = {'wbs': describe_wbs(w), 'fields': fields, 'children': ch, 'target': target, 'theme': theme}
     try:
